@@ -9,6 +9,7 @@ import Blue.Model.RrrCf
 import Blue.Model.Rrr
 import Blue.Model.Wavelet
 import Blue.Model.PsiDoc
+import Blue.Model.Huffman
 import Blue.Driver.Util
 /-! Driver verbs for property C19: instance `bv` (bit vectors on `List Bool`) and instance `doc`
     (the `Document` surface over the `Csa` model; the suffix-array order is computed naively here,
@@ -312,16 +313,50 @@ def parseTriples (s : String) : Option (List (Nat × Nat × Nat)) :=
 def docWt (cb : List (Nat × Nat × Nat)) (text qs : List Nat) : String :=
   open Blue.Wavelet in
   let pf := if prefixFreeB cb && inBookB cb text then "1" else "0"
+  -- the code book of the request (ascending symbol) IS the one the model of
+  -- `HuffmanEncoder::construct` (heap tie-breaking included) builds over this row
+  let hb := if decide (Blue.Huffman.bookOfText text = cb) then "1" else "0"
   match construct cb text with
-  | none => "pf=" ++ pf ++ " err"
+  | none => "pf=" ++ pf ++ " hb=" ++ hb ++ " err"
   | some w =>
     let xs := List.range (text.length + 2)
-    "pf=" ++ pf ++ " len=" ++ toString (len w)
+    "pf=" ++ pf ++ " hb=" ++ hb ++ " len=" ++ toString (len w)
       ++ " a=" ++ showOpts (xs.map fun x => showOptNat (access w x))
       ++ " r=" ++ (if qs.isEmpty then "-" else "|".intercalate (qs.map fun q => showOpts (xs.map fun x => showOptNat (rankQ w q x))))
       ++ " s=" ++ (if qs.isEmpty then "-" else "|".intercalate (qs.map fun q => showOpts (xs.map fun x => showOptNat (selectQ w q x))))
 
+def insertNat (x : Nat) : List Nat → List Nat
+  | [] => [x]
+  | y :: ys => if x ≤ y then x :: y :: ys else y :: insertNat x ys
+
+/-- the multiset of code lengths, ascending -/
+def lensOf (cb : List (Nat × Nat × Nat)) : List Nat := (cb.map fun e => e.2.2).foldr insertNat []
+
+def showEntry : Option (Nat × Nat × Nat) → String
+  | some (s, c, l) => toString s ++ ":" ++ toString c ++ ":" ++ toString l
+  | none => "-"
+
+def firstDiff : List (Nat × Nat × Nat) → List (Nat × Nat × Nat) → String
+  | a :: as, b :: bs => if a = b then firstDiff as bs else showEntry (some a) ++ "/" ++ showEntry (some b)
+  | [], b :: _ => "-/" ++ showEntry (some b)
+  | a :: _, [] => showEntry (some a) ++ "/-"
+  | [], [] => "-"
+
+/-- `doc huff <s:f,…> :: <sym:code:len,…>`: a `(symbol, frequency)` table in ascending symbol order
+    and the code book the real `HuffmanEncoder::construct` built over a text with exactly those
+    frequencies; `eq=1` iff `Blue.Huffman.huffmanHeap` builds the same book (otherwise both length
+    multisets and the first entry that differs, model/real, for the replay) -/
+def docHuff (freqs : List (Nat × Nat)) (cb : List (Nat × Nat × Nat)) : String :=
+  let m := Blue.Huffman.huffmanHeap freqs
+  if decide (m = cb) then "eq=1"
+  else "eq=0 model-lens=" ++ showNats (lensOf m) ++ " real-lens=" ++ showNats (lensOf cb)
+    ++ " first-diff=" ++ firstDiff m cb
+
 def handleDoc : List String → String
+  | ["huff", freqs, "::", cb] =>
+    match parsePairs freqs, parseTriples cb with
+    | some f, some c => docHuff f c
+    | _, _ => "bad-op"
   | ["full", text, rb, pats] =>
     match natList text, natList rb, parsePats pats with
     | some t, some b, some p => docFull t b p
